@@ -330,6 +330,32 @@ func checkC09StackedWrapper(r *core.Run, p *core.Program) {
 			if !ok || len(as.Lhs) != 1 || len(as.Rhs) != 1 {
 				return true
 			}
+			xObj := objOf(info, as.Lhs[0])
+			// the wrapper may be built in place: x := &T{…, child: _this.CurrentBuilder}
+			if u, isAddr := stripParens(as.Rhs[0]).(*ast.UnaryExpr); isAddr && u.Op == token.AND {
+				if lit, isLit := stripParens(u.X).(*ast.CompositeLit); isLit {
+					var heldIn *types.Var
+					for _, el := range lit.Elts {
+						if kv, ok := el.(*ast.KeyValueExpr); ok {
+							if fv := fieldOf(info, kv.Value); fv != nil && fv.Name() == "CurrentBuilder" {
+								heldIn, _ = objOf(info, kv.Key).(*types.Var)
+							}
+						}
+					}
+					tNamed := namedOf(info.TypeOf(lit))
+					stackedLit := false
+					inspectCalls(info, f.Decl.Body, func(c2 *ast.CallExpr, cal *types.Func) {
+						if cal != nil && cal.Name() == "StackBuilder" && len(c2.Args) == 1 && objOf(info, c2.Args[0]) == xObj {
+							stackedLit = true
+						}
+					})
+					if heldIn != nil && tNamed != nil && stackedLit {
+						n++
+						judgeStackedWrapper(r, p, info, tNamed, heldIn)
+					}
+				}
+				return true
+			}
 			call, ok := stripParens(as.Rhs[0]).(*ast.CallExpr)
 			if !ok {
 				return true
@@ -347,7 +373,6 @@ func checkC09StackedWrapper(r *core.Run, p *core.Program) {
 			if argIdx < 0 {
 				return true
 			}
-			xObj := objOf(info, as.Lhs[0])
 			stacked := false
 			inspectCalls(info, f.Decl.Body, func(c2 *ast.CallExpr, cal *types.Func) {
 				if cal != nil && cal.Name() == "StackBuilder" && len(c2.Args) == 1 && objOf(info, c2.Args[0]) == xObj {
@@ -388,25 +413,29 @@ func checkC09StackedWrapper(r *core.Run, p *core.Program) {
 				return true
 			}
 			n++
-			term := p.LookupFunc("builder", tNamed.Obj().Name()+".BuildArtificiallyEndContainer")
-			td := p.FuncDecl(term)
-			if td == nil || td.Body == nil {
-				r.Undecided("C09.stacked-wrapper", "builder."+tNamed.Obj().Name()+".BuildArtificiallyEndContainer")
-				return true
-			}
-			var bad token.Pos
-			inspectCalls(info, td.Body, func(c3 *ast.CallExpr, cal *types.Func) {
-				if cal == nil || (cal.Name() != "BuildArtificiallyEndContainer" && cal.Name() != "BuildEndContainer") {
-					return
-				}
-				if sel, ok := c3.Fun.(*ast.SelectorExpr); ok && fieldOf(info, sel.X) == heldIn {
-					bad = c3.Pos()
-				}
-			})
-			r.Check("C09.stacked-wrapper", "builder."+tNamed.Obj().Name()+"|artificial end is not forwarded to the builder below", posOr(bad, td.Pos()), !bad.IsValid(),
-				"builder."+tNamed.Obj().Name()+" is stacked on top of the builder it holds in "+heldIn.Name()+" and forwards the artificial end of input to it: when the input ends right after a marker (`[1 &a:`) the enclosing container is closed while the marker builder is still stacked, and the partial result contains a copy of (or a reference to) itself")
+			judgeStackedWrapper(r, p, info, tNamed, heldIn)
 			return true
 		})
 	}
 	r.Floor("C09.stacked-wrapper", "builders stacked on top of the builder they hold", n, 1)
+}
+
+func judgeStackedWrapper(r *core.Run, p *core.Program, info *types.Info, tNamed *types.Named, heldIn *types.Var) {
+	term := p.LookupFunc("builder", tNamed.Obj().Name()+".BuildArtificiallyEndContainer")
+	td := p.FuncDecl(term)
+	if td == nil || td.Body == nil {
+		r.Undecided("C09.stacked-wrapper", "builder."+tNamed.Obj().Name()+".BuildArtificiallyEndContainer")
+		return
+	}
+	var bad token.Pos
+	inspectCalls(info, td.Body, func(c3 *ast.CallExpr, cal *types.Func) {
+		if cal == nil || (cal.Name() != "BuildArtificiallyEndContainer" && cal.Name() != "BuildEndContainer") {
+			return
+		}
+		if sel, ok := c3.Fun.(*ast.SelectorExpr); ok && fieldOf(info, sel.X) == heldIn {
+			bad = c3.Pos()
+		}
+	})
+	r.Check("C09.stacked-wrapper", "builder."+tNamed.Obj().Name()+"|artificial end is not forwarded to the builder below", posOr(bad, td.Pos()), !bad.IsValid(),
+		"builder."+tNamed.Obj().Name()+" is stacked on top of the builder it holds in "+heldIn.Name()+" and forwards the artificial end of input to it: when the input ends right after a marker (`[1 &a:`) the enclosing container is closed while the marker builder is still stacked, and the partial result contains a copy of (or a reference to) itself")
 }
